@@ -54,15 +54,22 @@ def Series(params: SeriesParams) -> h.Module:
     unit_conns = {port.name: port for port in par_ports}
 
     # Create the internal series-connected signals, and concatenate them with the series ports
-    i = m.add(h.Signal(name="i", width=params.nser - 1))
+    i = m.add(h.Signal(name=_unused_name(m, "i"), width=params.nser - 1))
     unit_conns[series_conns[0].name] = h.Concat(series_conns[0], i)
     unit_conns[series_conns[1].name] = h.Concat(i, series_conns[1])
 
     # Create an array of unit instances
-    m.add(params.nser * params.unit(**unit_conns), name="units")
+    m.add(params.nser * params.unit(**unit_conns), name=_unused_name(m, "units"))
 
     # And return the module
     return m
+
+
+def _unused_name(m: h.Module, name: str) -> str:
+    # A name for an internal object of `m`, steering clear of the unit-cell's port names
+    while name in m.namespace:
+        name += "_"
+    return name
 
 
 def _seriesconns(m: h.Module, conns: SeriesConns) -> Tuple[h.Signal, h.Signal]:
